@@ -47,6 +47,13 @@ WriteAll(n, taken, sc, calls) ==
          ELSE IF a = 0 THEN [res |-> "write_zero", taken |-> taken, calls |-> calls + 1]
          ELSE WriteAll(n, taken + Min2(a, n - taken), Tail(sc), calls + 1)
 
+\* the byte-slice reader (Read for &[u8]): every read hands out min(asked, left) bytes from the front, Ok(0) at the end --
+\* also when exactly one byte is asked for; `n` is used as the slice length, the script as the sequence of buffer sizes
+RECURSIVE SliceReads(_, _)
+SliceReads(left, asks) == IF asks = <<>> THEN <<>> ELSE LET k == Min2(Head(asks), left) IN <<k>> \o SliceReads(left - k, Tail(asks))
+\* the mutable byte-slice writer (Write for &mut [u8]): min(offered, room) bytes, 0 when full
+SliceWrites(room, offers) == SliceReads(room, offers)
+
 RECURSIVE Tuples(_, _)
 Tuples(n, S) == IF n = 0 THEN {<<>>} ELSE {<<x>> \o t : x \in S, t \in Tuples(n - 1, S)}
 Scripts == UNION {Tuples(k, Answers) : k \in 0..MaxScript}
@@ -54,6 +61,8 @@ Scripts == UNION {Tuples(k, Answers) : k \in 0..MaxScript}
 Cases ==
     {[op |-> "read_exact", n |-> n, script |-> s, limit |-> 0, expect |-> ReadExact(n, 0, s, 0)] : n \in 0..MaxBuf, s \in Scripts} \cup
     {[op |-> "write_all", n |-> n, script |-> s, limit |-> 0, expect |-> WriteAll(n, 0, s, 0)] : n \in 0..MaxBuf, s \in Scripts} \cup
+    {[op |-> "slice_read", n |-> n, script |-> s, limit |-> 0, expect |-> [got |-> SliceReads(n, s)]] : n \in 0..(MaxBuf + 1), s \in UNION {Tuples(k, 0..3) : k \in 1..3}} \cup
+    {[op |-> "slice_write", n |-> n, script |-> s, limit |-> 0, expect |-> [got |-> SliceWrites(n, s)]] : n \in 0..(MaxBuf + 1), s \in UNION {Tuples(k, 0..3) : k \in 1..3}} \cup
     {[op |-> "take_read", n |-> n, script |-> s, limit |-> l,
       expect |-> LET r1 == TakeRead(n, l, s) r2 == TakeRead(n, r1.limit, r1.sc) IN [res |-> r1.res, res2 |-> r2.res, limit_after |-> r2.limit]]
         : n \in 0..MaxBuf, l \in 0..(MaxBuf + 1), s \in {x \in Scripts : Len(x) <= 2}}
